@@ -3,13 +3,13 @@ import PycsepVerif.Model.ResultJson
 /-!
   Driver ops for C18 (all prefixed `c18_`).
     c18_tables                 → `Class|Class|…;key>Class|key>Class|…`  (the Lean tables resultClasses / factoryTable)
-    c18_field  <val>           → `<json> <loaded> <safe:0|1>`   json.dump(default=str) then json.load of one field
+    c18_field  <val>           → `<json> <loaded> <safe:0|1>`   json.dump(default=_json_default) then json.load of one field
     c18_td     <val>           → `err` (to_dict raises TypeError) or `<loaded>` of the stored test_distribution
     c18_factory <hex-name>     → hex of the class name built, or `KeyError`
     c18_region origins dh mask pts → `i,i,…;j,j,…` exact-lattice indices (n = outside) in the original region and in
                                  the region rebuilt from its dictionary
   Values travel in prefix (Polish) notation, tokens joined by `,`:
-    i<int> b<0|1> f<bits|nan> F<bits|nan> I<int> B<0|1> o<hex> s<hex> n l<k> t<k> a<k>     (PyVal)
+    i<int> b<0|1> f<bits|nan> F<bits|nan> I<int> B<0|1> G<bits|nan> o<hex> s<hex> n l<k> t<k> a<k>     (PyVal)
     N b<0|1> i<int> f<bits|nan> s<hex> l<k>                                               (Json)
   Strings are hex-encoded UTF-8.
 -/
@@ -61,6 +61,7 @@ mutual
       | 'F' => (parseF64? body).map (fun x => (.npFloat64 x, rest))
       | 'I' => body.toInt?.map (fun n => (.npInt64 n, rest))
       | 'B' => some (.npBool (body = "1"), rest)
+      | 'G' => (parseF64? body).map (fun x => (.npFloat32 x, rest))
       | 'o' => (fromHex? body).map (fun s => (.other s, rest))
       | 's' => (fromHex? body).map (fun s => (.str s, rest))
       | 'n' => some (.none, rest)
@@ -89,6 +90,7 @@ mutual
     | .npFloat64 x => ["F" ++ showF64 x]
     | .npInt64 n => [s!"I{n}"]
     | .npBool b => [if b then "B1" else "B0"]
+    | .npFloat32 x => ["G" ++ showF64 x]
     | .other s => ["o" ++ toHex s]
     | .str s => ["s" ++ toHex s]
     | .none => ["n"]
